@@ -3,6 +3,7 @@ from engine import *
 import obligations
 import provenance
 import mutations
+import eventloops
 import re
 import chainrules
 
@@ -235,7 +236,8 @@ def r10i(F):
 			continue
 		# the switch on the handler's Result<(), ReplayEvent>
 		def is_handler_result(pl):
-			return 'ReplayEvent' in (fu.locals[pl[0]].get('ty') or '') and 'Result<' in (fu.locals[pl[0]].get('ty') or '')
+			ty = (fu.locals[pl[0]].get('ty') or '').lstrip('&')
+			return ty.startswith('core::result::Result<') and 'ReplayEvent' in ty   # not the Poll<Result<..>> of the awaited handler
 		sw = variant_switch_edges(fu, is_handler_result, ['Ok', 'Err'])
 		# the same test written with is_ok() / is_err()
 		exr = Expr(fu)
@@ -428,3 +430,4 @@ RULES = [
 RULES.append(('10.u', 'obligation-carrying values returned by workspace calls (to-fail HTLC lists, monitor updates, events, peer messages, claim packages) are never dropped on a path that does not examine them (rules/obligations.py)', lambda F: obligations.for_property(F, 'C10', '10.u')))
 RULES.append(('10.t', 'identity comparisons: every reviewed (function, identity type) == / != comparison (HTLCSource, Txid, OutPoint, ChannelId, PaymentHash, PublicKey, ...) is still made - a function does not silently change what it matches by (rules/provenance.py)', lambda F: provenance.ids_for_property(F, 'C10', '10.t')))
 RULES.append(('10.M', 'collection mutations: every reviewed (function, stored collection, mutator class: add / remove / filter / empty / swap / order) triple is still present - an entry that is no longer removed, inserted or drained on one path (rules/mutations.py)', lambda F: mutations.for_property(F, 'C10', '10.M')))
+RULES.append(('10.E', 'event replay: the count of events drained from pending_events (ChannelManager, ChannelMonitor, ChainMonitor; sync and async expansions) is advanced only on the Ok arm of the handler result - an event whose handler failed stays queued and is replayed (rules/eventloops.py)', lambda F: eventloops.rule(F, '10.E', r'.', 5)))
